@@ -147,7 +147,7 @@ var c07Pool = func() []c07Pat {
 	return ps
 }()
 
-const c07Alpha = "/ab.?#"
+const c07Alpha = "/ab.?#:"
 
 func c07Judge(c *sim.Case, cache map[string]*server.ExtAuthZFilter, rules []c07Rule, target string) {
 	key := fmt.Sprint(rules)
@@ -218,7 +218,7 @@ func c07GenPat(c *sim.Case, label string) c07Pat {
 func TestC07(t *testing.T) {
 	r := sim.NewRun(t, "C07")
 	defer r.Finish()
-	r.Rule = "rule sets x request targets path[?query][#fragment]; exhaustive part: every single-rule set with <=1 excluded and <=1 included pattern from a fixed pool x every target up to a length over {/ a b . ? #}; random part: 0-3 rules with 0-3 patterns per list and targets to length 8. Non-trivial = target has a query or fragment AND some pattern of the rule set matches the full target differently from its path component; distinct = distinct (rules, target)."
+	r.Rule = "rule sets x request targets path[?query][#fragment]; exhaustive part: every single-rule set with <=1 excluded and <=1 included pattern from a fixed pool x every target up to a length over {/ a b . ? # :}; random part: 0-3 rules with 0-3 patterns per list and targets to length 8. Non-trivial = target has a query or fragment AND some pattern of the rule set matches the full target differently from its path component; distinct = distinct (rules, target)."
 	r.Assumptions = []string{
 		"Envoy places path and query together in HttpRequest.path (documented ext_authz behaviour)",
 		"regex leaf semantics = Go RE2 unanchored search, invalid expression = no match (what the code documents by using regexp.MatchString)",
@@ -255,6 +255,9 @@ func TestC07(t *testing.T) {
 		target := c.Str("target", c07Alpha, 0, 8)
 		if sim.Bool(c, "longtarget") {
 			target = "/" + c.Str("seg", "ab./", 0, 6) + sim.PickStr(c, "sep", "?", "#", "?#", "#?", "") + c.Str("tail", c07Alpha+"=&", 0, 6)
+			if sim.Weighted(c, "embedded-url", 3, 1) == 1 {
+				target += sim.PickStr(c, "url", "r=https://b/a", "http://a/b", "x://y/.b", "//a/b", "u=a://")
+			}
 		}
 		c07Judge(c, cache, rules, target)
 	}
